@@ -1,8 +1,198 @@
+(* C08  multipart/form-data decodes to exactly the parts that were encoded.
+   Statements only; every proof is [exact <lemma of proofs/MultipartProofs.v>].
+
+   Vocabulary (model/Multipart.v): a line source is a state type [St] with
+   [rl size s = (line, s')] for input.readline(size) and the ghost view
+   [rem s] of the bytes not yet handed out; [good_reader St rl rem L P] is
+   the contract the parser needs from it, for the size arguments [L] and on
+   the states [P]:
+     pieces concatenate to the input; an empty piece means end of input; a
+     piece never runs past a CRLF; a piece that does not end with LF is a
+     size cut or the end of input; when a cut separates CR from LF the LF
+     comes back as a piece of its own.
+   [bline b last pad] is a delimiter line without its line end
+   ("--b" ["--"] padding), [no_delim_line b c] says that no line of the
+   content c reads as a delimiter line (near copies like "--bX", "--b-",
+   "--b--X" are allowed), [boundary_ok] is valid_boundary without its
+   "$ matches before a trailing newline" quirk. *)
 From Coq Require Import ZArith List Bool.
 Require Import PW.lib.Val PW.model.Multipart PW.proofs.MultipartProofs.
 Import ListNotations.
 Open Scope Z_scope.
 
-Theorem C08_placeholder : forall l, rv l = rev l.
-Proof. exact rv_rev. Qed.
-Print Assumptions C08_placeholder.
+(* (1) The heart: read_lines_to_outerboundary, started at the first byte of
+   a content c (ANY bytes: CR, LF, dashes, near copies of the boundary, ...)
+   that is followed by CRLF, a delimiter line and [rest], returns exactly c
+   for every way a good reader cuts the input into lines, tells whether the
+   delimiter was the closing one, has counted exactly the bytes up to the
+   end of the delimiter line and leaves the reader at [rest]. *)
+Theorem C08_lines_to_boundary_exact :
+  forall (St : Type) (rl : Z -> St -> bytes * St) (rem : St -> bytes)
+         (L : Z -> Prop) (P : St -> Prop),
+    good_reader St rl rem L P ->
+  forall (maxline : Z) (b : bytes) (last : bool) (pad c eol rest : bytes)
+         (limit : option Z) (s : St) (fuel : nat),
+    L maxline ->
+    boundary_ok b = true ->
+    forallb is_blank_c pad = true ->
+    (eol = [13; 10] \/ (eol = [] /\ rest = [])) ->
+    len (bline b last pad) + 2 <= maxline ->
+    len b + 6 <= maxline ->
+    no_delim_line b c ->
+    limit_ok limit (len c) ->
+    P s ->
+    rem s = c ++ [13; 10] ++ bline b last pad ++ eol ++ rest ->
+    len (rem s) < Z.of_nat fuel ->
+    exists pieces s',
+      rlob St rl maxline fuel (dashb b) (dashb b ++ [45; 45]) limit
+           [] [] true 0 s
+        = RDone pieces (if last then 1 else 0)
+                (len c + 2 + len (bline b last pad) + len eol) s' /\
+      List.concat pieces = c /\ rem s' = rest /\ P s'.
+Proof. exact lines_to_boundary_exact. Qed.
+Print Assumptions C08_lines_to_boundary_exact.
+
+(* the property's own hypothesis ("the boundary does not occur in the
+   content") implies the one used above *)
+Theorem C08_boundary_absent_suffices :
+  forall b c, ~ occurs (10 :: dashb b) (10 :: c) -> no_delim_line b c.
+Proof. exact not_occurs_no_delim. Qed.
+Print Assumptions C08_boundary_absent_suffices.
+
+(* io.BytesIO.readline satisfies the contract, for every size argument and
+   every input *)
+Theorem C08_lf_reader_good :
+  good_reader bytes lf_line idb any_lim any_state.
+Proof. exact lf_reader_good. Qed.
+Print Assumptions C08_lf_reader_good.
+
+(* CachedInput.readline (seen from outside) satisfies it for the sizes the
+   parser uses, on every input on which it never separates a CR from the LF
+   behind it ... *)
+Theorem C08_crlf_reader_good :
+  forall maxline,
+    good_reader bytes crlf_line idb (crlf_lims maxline) (crlf_safe maxline).
+Proof. exact crlf_reader_good. Qed.
+Print Assumptions C08_crlf_reader_good.
+
+(* ... in particular on every input not longer than the line limit *)
+Theorem C08_crlf_safe_short :
+  forall maxline s, len s <= maxline -> crlf_safe maxline s.
+Proof. exact crlf_safe_short. Qed.
+Print Assumptions C08_crlf_safe_short.
+
+(* (2) Round trip of flat part lists: parsing encode b parts gives fields
+   with the same names, filenames, media types and byte-exact contents, in
+   order, and consumes the input; with or without the final CRLF, with the
+   Content-Length absent or correct, for every good reader.
+   _partial: the full statement has no hypothesis about the headers.  Here
+   [part_ok] contains [headers_decode]: the header codec (FeedParser subset +
+   parse_header) gives back name, filename and media type of the part --
+   decidable for a given part (see C08_hypotheses_example), the business of
+   C18 in general, and false for a name ending in a backslash in front of a
+   filename parameter (C08_headers_decode_backslash_refuted).  Missing
+   besides: parts that are themselves multipart/* or
+   application/x-www-form-urlencoded (not modelled), text values are
+   compared as bytes (C08_text_exact_ascii covers ASCII fields). *)
+Theorem C08_multipart_roundtrip_partial :
+  forall (St : Type) (rl : Z -> St -> bytes * St) (rem : St -> bytes)
+         (L : Z -> Prop) (P : St -> Prop),
+    good_reader St rl rem L P ->
+  forall (maxline : Z) (b : bytes) (p : part) (ps : list part) (final : bool)
+         (ctv : list Z) (clen : Z) (s : St) (fuel : nat),
+    L maxline -> L (-1) ->
+    boundary_ok b = true -> len b + 6 <= maxline ->
+    ctype_names ctv b ->
+    Forall (part_ok b) (p :: ps) ->
+    P s -> rem s = encode b (p :: ps) final ->
+    (clen < 0 \/ clen = len (rem s)) ->
+    len (rem s) < Z.of_nat fuel ->
+    exists fields s',
+      parse St rl maxline fuel (Some ctv) clen s = Ok (fields, s') /\
+      Forall2 field_matches (p :: ps) fields /\ rem s' = [].
+Proof. exact multipart_roundtrip. Qed.
+Print Assumptions C08_multipart_roundtrip_partial.
+
+(* (3) Two good readers give the same parts for an encoded body (same block
+   of hypotheses as above) *)
+Theorem C08_reader_independent_partial :
+  forall (St1 St2 : Type) rl1 rl2 rem1 rem2 L1 L2 P1 P2,
+    good_reader St1 rl1 rem1 L1 P1 -> good_reader St2 rl2 rem2 L2 P2 ->
+  forall maxline b p ps final ctv clen s1 s2 fuel,
+    L1 maxline -> L1 (-1) -> L2 maxline -> L2 (-1) ->
+    boundary_ok b = true -> len b + 6 <= maxline ->
+    ctype_names ctv b -> Forall (part_ok b) (p :: ps) ->
+    P1 s1 -> P2 s2 ->
+    rem1 s1 = encode b (p :: ps) final -> rem2 s2 = encode b (p :: ps) final ->
+    (clen < 0 \/ clen = len (encode b (p :: ps) final)) ->
+    len (encode b (p :: ps) final) < Z.of_nat fuel ->
+    exists fs1 fs2 t1 t2,
+      parse St1 rl1 maxline fuel (Some ctv) clen s1 = Ok (fs1, t1) /\
+      parse St2 rl2 maxline fuel (Some ctv) clen s2 = Ok (fs2, t2) /\
+      Forall2 same_field fs1 fs2.
+Proof. exact reader_independent. Qed.
+Print Assumptions C08_reader_independent_partial.
+
+(* a text field whose bytes are ASCII is decoded exactly, however the
+   reader cut it *)
+Theorem C08_text_exact_ascii :
+  forall f, Forall (fun c => c < 128) (f_bytes f) -> f_text f = f_bytes f.
+Proof. exact text_exact_ascii. Qed.
+Print Assumptions C08_text_exact_ascii.
+
+(* the hypotheses are satisfiable by a non-trivial input (names with quotes,
+   semicolon, backslash, non-ASCII; a file whose content is full of CR, LF,
+   NUL, 0xFF and near copies of the delimiter; an empty field) *)
+Theorem C08_hypotheses_example :
+  boundary_ok ex_b = true /\ ctype_names ex_ctv ex_b /\
+  Forall (part_ok ex_b) ex_parts.
+Proof. exact ex_hypotheses. Qed.
+Print Assumptions C08_hypotheses_example.
+
+(* ---- where the faithful model does not round-trip *)
+
+(* candidate defect: the CRLF-splitting reader with a line limit separates
+   the CR of the CRLF in front of a delimiter from its LF (content whose
+   last CRLF-free run is limit-1 bytes, 65535 in the implementation): the
+   delimiter is missed and everything behind it becomes content *)
+Theorem C08_crlf_cut_divides_delimiter_refuted :
+  exists maxline b c rest input,
+    input = c ++ [13; 10] ++ bline b false [] ++ [13; 10] ++ rest /\
+    boundary_ok b = true /\ len (bline b false []) + 2 <= maxline /\
+    len b + 6 <= maxline /\ no_delim_line b c /\
+    ~ crlf_safe maxline input /\
+    exists pieces n,
+      rlob bytes crlf_line maxline (fuel_for input) (dashb b)
+           (dashb b ++ [45; 45]) None [] [] true 0 input
+        = RDone pieces (-1) n [] /\
+      List.concat pieces <> c.
+Proof. exact crlf_cut_divides_delimiter_refuted. Qed.
+Print Assumptions C08_crlf_cut_divides_delimiter_refuted.
+
+(* "CRLF--b does not occur in the content" (RFC 2046) is not enough: a
+   delimiter-like line behind a bare LF ends the part *)
+Theorem C08_rfc_delimiter_hypothesis_refuted :
+  exists b c rest input,
+    input = c ++ [13; 10] ++ bline b false [] ++ [13; 10] ++ rest /\
+    boundary_ok b = true /\ ~ occurs (13 :: 10 :: dashb b) c /\
+    exists pieces n s',
+      rlob bytes lf_line 65536 (fuel_for input) (dashb b)
+           (dashb b ++ [45; 45]) None [] [] true 0 input
+        = RDone pieces 0 n s' /\
+      List.concat pieces <> c.
+Proof. exact rfc_delimiter_hypothesis_refuted. Qed.
+Print Assumptions C08_rfc_delimiter_hypothesis_refuted.
+
+(* reader independence does not extend to bodies no encoder produces *)
+Theorem C08_reader_independent_any_input_refuted :
+  exists ctv body,
+    parse bytes lf_line 65536 (fuel_for body) (Some ctv) (-1) body <>
+    parse bytes crlf_line 65536 (fuel_for body) (Some ctv) (-1) body.
+Proof. exact reader_independent_any_input_refuted. Qed.
+Print Assumptions C08_reader_independent_any_input_refuted.
+
+(* the header hypothesis is needed *)
+Theorem C08_headers_decode_backslash_refuted :
+  exists b p, ~ In 10 (p_name p) /\ ~ headers_decode b p.
+Proof. exact headers_decode_backslash_refuted. Qed.
+Print Assumptions C08_headers_decode_backslash_refuted.
